@@ -164,7 +164,7 @@ def _relabel():
             return None
         a = w.arr(a_id)
         how = rng.choice(["item", "item", "axvalues", "labels", "attr", "set_axis_list", "set_axis_dict", "set_axis_fn",
-                          "axes_setitem", "axes_assign"])
+                          "axes_setitem", "axes_assign", "item_mask"] + (["values_buffer"] if "C05" not in w.props else []))
         if how in ("labels", "axes_assign"):
             new = []
             for ax in list.__iter__(a._axes):
@@ -194,7 +194,7 @@ def _relabel():
         if labs is None or not labs:
             return None
         st = {"a": a_id, "how": how, "axis": ref, "dim": nm}
-        if how == "item":
+        if how in ("item", "item_mask", "values_buffer"):
             lab = _unique_new_label(rng, labs)
             if lab is None:
                 return None
@@ -242,10 +242,22 @@ def _relabel():
                 a.axes = [(d, V.label_array(l)) for l, d in zip(s["new"], names)]
             return None
         ax = a.axes[s["axis"]]
-        if how == "item":
-            if s["lab"] in (plain_labels(ax) or [s["lab"]]):
+        if how in ("item", "item_mask", "values_buffer"):
+            cur = plain_labels(ax)
+            if cur is None or s["lab"] in cur or s["i"] >= len(cur):
                 raise Skip("dup")
-            ax[s["i"]] = s["lab"]
+            if how == "item":
+                ax[s["i"]] = s["lab"]
+            elif how == "item_mask":
+                mask = np.zeros(len(cur), dtype=bool)
+                mask[s["i"]] = True
+                ax[mask] = s["lab"]
+            else:
+                # a write straight into the label buffer the axis hands out (not done in C05 runs: it bypasses the
+                # axis, so a cached monotonicity flag is legitimately left behind)
+                if isinstance(s["lab"], str) != isinstance(cur[0], str) or (isinstance(s["lab"], float) and ax.values.dtype.kind == "i"):
+                    raise Skip("kind")
+                ax.values[s["i"]] = s["lab"]
         elif how == "axvalues":
             ax.values = V.label_array(s["new"])
         elif how == "attr":
@@ -279,7 +291,7 @@ def _meta_write():
     def gen(w, rng):
         a_id = pick_arr(w, rng)
         a = w.arr(a_id)
-        how = rng.choice(["attr", "dict", "del", "axattr", "mutate", "axmutate"])
+        how = rng.choice(["attr", "dict", "del", "axattr", "mutate", "axmutate", "attr", "dict", "axattr", "npnested"])
         st = {"a": a_id, "how": how, "name": rng.choice(META_NAMES),
               "value": V.gen_attr_value(rng, w.cfg.get("mutable_meta", True))}
         if how in ("axattr", "axmutate"):
@@ -298,6 +310,10 @@ def _meta_write():
             setattr(a, nm, val)
         elif how == "dict":
             a.attrs[nm] = val
+        elif how == "npnested":
+            # NumPy objects inside a mutable metadata value
+            a.attrs[nm] = {"k": np.float32(1.5), "l": np.array([1, 2])} if len(nm) % 2 else [np.int64(3), np.array([0.5, 2.0])]
+            w.count("c15:meta_numpy_nested")
         elif how == "del":
             if nm not in a.attrs:
                 raise Skip("absent")
